@@ -441,11 +441,11 @@ func c17RedirectPortTable(c *Ctx, pp string) {
 			if !ok || len(ret.Results) != 1 {
 				return false
 			}
-			if b, isB := constBool(ret.Results[0]); isB {
+			if b, isB := constBool(unspill(ret, 0)); isB {
 				return b == want
 			}
 			// `return port == "80"`: a comparison as the result
-			if bo, isBO := ret.Results[0].(*ssa.BinOp); isBO && (bo.Op == token.EQL || bo.Op == token.NEQ) {
+			if bo, isBO := unspill(ret, 0).(*ssa.BinOp); isBO && (bo.Op == token.EQL || bo.Op == token.NEQ) {
 				if k, isK := constStringVal(bo.Y); isK {
 					if s, known := env[bo.X]; known {
 						return ((s == k) == (bo.Op == token.EQL)) == want
@@ -497,7 +497,7 @@ func regexHelper(call *ssa.Call) bool {
 			}
 			leaves = append(leaves, v)
 		}
-		walk(r.Results[0])
+		walk(unspill(r, 0))
 		for _, l := range leaves {
 			c2, ok := l.(*ssa.Call)
 			if !ok || !strings.HasPrefix(calleeName(c2.Common()), "(*regexp.Regexp).Replace") {
